@@ -194,7 +194,15 @@ def _compile(case, build_code=True):
                 d[a] = 0
                 presets[a] = _native(v)
         d.update(case['errs'])
-        m = xl.ModelCompiler().read_and_parse_dict(d, build_code=build_code)
+        import zlib
+        items = list(d.items())
+        ak = zlib.crc32(repr(sorted(map(repr, items))).encode()) % 3
+        if ak == 1:
+            items.reverse()     # formulas before the cells they use
+        elif ak == 2:
+            items.sort(key=lambda kv: kv[0], reverse=True)
+        m = xl.ModelCompiler().read_and_parse_dict(dict(items),
+                                                   build_code=build_code)
     else:
         per = {s: {} for s in model['sheets']}
         for a, v in model['inputs'].items():
